@@ -428,6 +428,9 @@ def halfway_cases(draw):
     for k, f in enumerate(draw(st.permutations(["f", "g", "h", "k"]))[:draw(st.integers(2, 4))]):
         key = f + draw(st.sampled_from(["", "", "|contains", "|all"]))
         sel[key] = draw(good if k == 0 or draw(st.booleans()) else bad)
+        if draw(st.integers(0, 4)) == 0:   # a modifier expansion of which only some values are numbers
+            sel.pop(key)
+            sel[f + "|windash"] = draw(st.sampled_from(["-1", "-12", ["-1", "-x"], "-1 -2"]))
     sel[draw(st.sampled_from(["z", "z|startswith"]))] = draw(bad)
     det = {"sel": sel, "condition": "sel"}
     if draw(st.booleans()):
